@@ -74,6 +74,14 @@ ANCHORS = [
     ("BISYNC_CONTENT_EQUAL_READS_BYTES", "src/bisync/classifier.rs", r"Ok\((same_bytes)\(&source\.path, &dest\.path\)\.unwrap_or\(true\)\)", "flag"),
     ("BISYNC_MAX_DELETE_DEFAULT", "src/cli.rs", r'#\[arg\(long, default_value = "([0-9]+)"\)\]\s*\n\s*pub max_delete: u8,', "nat"),
     ("BISYNC_STRATEGIES", "src/cli.rs", r'let valid_strategies = \[([^\]]*)\];', "strlist"),
+    # C20 — watch loop (src/sync/watch.rs, src/main.rs) and the mtime tolerance of the comparison rule
+    ("WATCH_DEBOUNCE_MS", "src/main.rs", r"^\s*Duration::from_millis\(([0-9_]+)\), // [0-9]+ms debounce", "nat"),
+    ("WATCH_RECV_TIMEOUT_MS", "src/sync/watch.rs", r"rx\.recv_timeout\(Duration::from_millis\(([0-9_]+)\)\)", "nat"),
+    ("WATCH_SELECT_SLEEP_MS", "src/sync/watch.rs", r"_ = tokio::time::sleep\(Duration::from_millis\(([0-9_]+)\)\) =>", "nat"),
+    ("WATCH_KEPT_KINDS", "src/sync/watch.rs", r"^\s*((?:EventKind::\w+\(_\)(?: \| )?)+) => true,", "kinds"),
+    ("WATCH_ARM_FIRST", "src/sync/watch.rs",
+     (r"^\s*watcher\.watch\(&self\.source, RecursiveMode::Recursive\)\?;", r"^\s*self\.engine\.sync\(&self\.source, &self\.destination\)\.await\?;"), "before"),
+    ("MTIME_TOLERANCE_S", "src/sync/strategy.rs", r"^\s*mtime_tolerance: ([0-9_]+), // 1 second tolerance for mtime comparison", "nat"),
     ("TEMP_SUFFIX", "src/transport/local.rs", r'name\.push\("([^"]+)"\);', "str"),
 ]
 
@@ -86,6 +94,13 @@ def extract(repo):
             src = cache.setdefault(p, open(p).read())
         except OSError as e:
             errs.append(f"{name}: cannot read {rel}: {e}"); continue
+        if kind == "before":
+            # Bool: the unique match of rx[0] lies before the unique match of rx[1]
+            a = [m.start() for m in re.finditer(rx[0], src, flags=re.M)]
+            b = [m.start() for m in re.finditer(rx[1], src, flags=re.M)]
+            if len(a) != 1 or len(b) != 1:
+                errs.append(f"{name}: anchors matched {len(a)}/{len(b)} times in {rel} (expected 1/1)"); continue
+            vals[name] = ("Bool", "true" if a[0] < b[0] else "false"); continue
         if kind == "order":
             # rx is a list of (label, regex); every regex must match exactly once; value = labels by position
             pos, bad = [], False
@@ -116,6 +131,9 @@ def extract(repo):
                 items = re.findall(r'"([^"]*)"', ms[0])
                 vals[name] = ("List String", "[" + ", ".join('"' + i + '"' for i in items) + "]")
             elif kind == "bool": vals[name] = ("Bool", "true" if ms[0] else "false")
+            elif kind == "kinds":
+                items = re.findall(r"EventKind::(\w+)\(_\)", ms[0])
+                vals[name] = ("List String", "[" + ", ".join('"' + i + '"' for i in items) + "]")
             elif kind == "idxhexlist":
                 # `&& stdin_data[i] == 0xNN` comparisons; the indices must be 0, 1, 2, … in order
                 pairs = re.findall(r"\[([0-9]+)\] == 0x([0-9A-Fa-f]+)", ms[0])
